@@ -40,6 +40,8 @@ func main() {
 		os.Exit(cmdCheck(os.Args[2:]))
 	case "worker":
 		os.Exit(cmdWorker(os.Args[2:]))
+	case "extra":
+		os.Exit(cmdExtra(os.Args[2:]))
 	case "replay":
 		os.Exit(cmdReplay(os.Args[2:]))
 	case "list":
@@ -92,13 +94,39 @@ func cmdWorker(args []string) int {
 	for _, sc := range c.Scenarios(*tier) {
 		w := world.New(sc.Cfg)
 		ex := engine.NewExplorer(w, sc, *shard, *of, *out, dl)
+		ex.ConfWant = 1
+		if *tier == "thorough" {
+			ex.ConfWant = 3
+		}
 		o := ex.Run()
+		ex.RunConformance(&o)
 		outs = append(outs, o)
 		w.Close()
 	}
 	bz, _ := json.Marshal(outs)
 	if err := os.WriteFile(*out, bz, 0o644); err != nil {
 		fmt.Fprintln(os.Stderr, err)
+		return 2
+	}
+	return 0
+}
+
+func cmdExtra(args []string) int {
+	id := args[0]
+	fs := flag.NewFlagSet("extra", flag.ExitOnError)
+	tier := fs.String("tier", "quick", "")
+	shard := fs.Int("shard", 0, "")
+	of := fs.Int("of", 1, "")
+	out := fs.String("out", "", "")
+	fs.Parse(args[1:])
+	c := checks.Registry[id]
+	if c == nil || c.Extra == nil {
+		return 2
+	}
+	engine.StartGuard(*out, id)
+	r := c.Extra(*tier, *shard, *of)
+	bz, _ := json.Marshal(r)
+	if err := os.WriteFile(*out, bz, 0o644); err != nil {
 		return 2
 	}
 	return 0
@@ -179,6 +207,8 @@ func cmdCheck(args []string) int {
 	var samples []interface{}
 	scenarioNames := []string{}
 	harnessErr := false
+	confOK, confSteps := 0, 0
+	var confBlocks int64
 
 	if c.Scenarios != nil {
 		n := c.Workers
@@ -243,6 +273,13 @@ func cmdCheck(args []string) int {
 				if i == 0 {
 					scenarioNames = append(scenarioNames, o.Scenario)
 				}
+				confOK += o.ConformOK
+				confSteps += o.ConformSteps
+				confBlocks += o.ConformBlocks
+				for _, ce := range o.ConformErrs {
+					fmt.Fprintln(os.Stderr, "HARNESS: conformance mismatch (explorer seam vs real ABCI):", ce)
+					harnessErr = true
+				}
 				st := o.Stats
 				merged.States += st.States
 				merged.Transitions += st.Transitions
@@ -282,8 +319,76 @@ func cmdCheck(args []string) int {
 		}
 	}
 	var extra checks.ExtraResult
+	extra.Exhaustive = true
+	extra.Notes = map[string]interface{}{}
 	if c.Extra != nil {
-		extra = c.Extra(*tier, &checks.Env{Tier: *tier, Workers: c.Workers})
+		n := c.ExtraWorkers
+		if n == 0 {
+			n = 16
+		}
+		tmp, err := os.MkdirTemp("", "saomc-extra-")
+		if err != nil {
+			return 2
+		}
+		defer os.RemoveAll(tmp)
+		self, _ := os.Executable()
+		var wg sync.WaitGroup
+		codes := make([]int, n)
+		for i := 0; i < n; i++ {
+			wg.Add(1)
+			go func(i int) {
+				defer wg.Done()
+				cmd := exec.Command(self, "extra", id, "--tier", *tier, "--shard", strconv.Itoa(i), "--of", strconv.Itoa(n), "--out", filepath.Join(tmp, fmt.Sprintf("x%d.json", i)))
+				cmd.Stderr = os.Stderr
+				cmd.Env = append(os.Environ(), "GOMAXPROCS=2")
+				if err := cmd.Run(); err != nil {
+					if ee, ok := err.(*exec.ExitError); ok {
+						codes[i] = ee.ExitCode()
+					} else {
+						codes[i] = 99
+					}
+				}
+			}(i)
+		}
+		wg.Wait()
+		for i := 0; i < n; i++ {
+			path := filepath.Join(tmp, fmt.Sprintf("x%d.json", i))
+			if codes[i] == 3 {
+				var hr engine.HangRecord
+				if bz, err := os.ReadFile(path + ".hang"); err == nil && json.Unmarshal(bz, &hr) == nil {
+					extra.Findings = append(extra.Findings, hr.Hang)
+				}
+				extra.Exhaustive = false
+				continue
+			}
+			bz, err := os.ReadFile(path)
+			var r checks.ExtraResult
+			if codes[i] != 0 || err != nil || json.Unmarshal(bz, &r) != nil {
+				fmt.Fprintf(os.Stderr, "HARNESS: extra worker %d exit %d %v\n", i, codes[i], err)
+				harnessErr = true
+				continue
+			}
+			extra.Evaluations += r.Evaluations
+			extra.Distinct += r.Distinct
+			extra.Findings = append(extra.Findings, r.Findings...)
+			if len(extra.Samples) < 6 {
+				extra.Samples = append(extra.Samples, r.Samples...)
+			}
+			if !r.Exhaustive {
+				extra.Exhaustive = false
+			}
+			for k, v := range r.Notes {
+				if fv, ok := v.(float64); ok {
+					if old, ok := extra.Notes[k].(float64); ok {
+						extra.Notes[k] = old + fv
+					} else if _, exists := extra.Notes[k]; !exists {
+						extra.Notes[k] = fv
+					}
+				} else if _, exists := extra.Notes[k]; !exists {
+					extra.Notes[k] = v
+				}
+			}
+		}
 		for _, f := range extra.Findings {
 			if old, ok := findings[f.Sig()]; !ok || len(f.Trace) < len(old.Trace) {
 				findings[f.Sig()] = f
@@ -364,7 +469,9 @@ func cmdCheck(args []string) int {
 	if c.Scenarios != nil {
 		cov["states"] = merged.States
 		cov["transitions"] = merged.Transitions
-		cov["traces_validated_against_impl"] = 0
+		cov["traces_validated_against_impl"] = confOK
+		cov["conformance"] = map[string]interface{}{"traces": confOK, "steps_compared": confSteps, "abci_blocks_executed": confBlocks,
+			"what": "each trace replayed in lock-step on the explorer seam and through real ABCI (signed txs via DeliverTx, every height via the full module manager with Commit); six custom stores + actor/module balances compared byte for byte after every step"}
 		cov["evaluations"] = merged.Transitions + extra.Evaluations
 		cov["distinct_nontrivial"] = merged.NonTrivial + extra.Distinct
 		cov["depth_completed"] = merged.DepthDone
